@@ -7,7 +7,7 @@
     response serialises, data or errors; and the stage-contract checks of the composed model hold.
     Every other stream goes to the glue check (Pipe/PipelineCheck.v).  Executable only. *)
 From Coq Require Import List NArith ZArith Bool String Ascii.
-From ApiFu Require Import Base.Sexp Pipe.PipelineModel Pipe.PipelineCheck Pipe.Convert Pipe.Compose Pipe.SchemaAgree Pipe.CostCompose.
+From ApiFu Require Import Base.Sexp Pipe.PipelineModel Pipe.PipelineCheck Pipe.Convert Pipe.Compose Pipe.SchemaAgree Pipe.CostCompose Pipe.SubscribeCompose.
 From ApiFu Require Val.Values Val.CoerceSpec.
 From ApiFu Require Syn.Ast Syn.ParserModel Syn.FrontEnd Vld.Ast Vld.Inspect Vld.TypeInfoModel Vld.ValidatorModel Vld.Decode Vld.ValidatorCheck ExeA.ArgData ExeA.ArgModel ExeA.ArgHyps ExeA.ArgDecode ExeA.ArgCheck.
 Import ListNotations.
@@ -162,6 +162,57 @@ Definition judge_cost (VS : Vld.Ast.schema) (F : Vld.Ast.features) (ES : ExeA.Ar
       end
   end.
 
+(** ** graphql.Subscribe on the same request: [(subscribe (obs syntax | invalid | (error n path) | source))] *)
+Definition of_pathc (c : ExeA.ArgData.pathc) : sexp :=
+  match c with ExeA.ArgData.PKey k => SStr k | ExeA.ArgData.PIdx i => of_N i end.
+Fixpoint path_eqb (a b : ExeA.ArgData.rpath) : bool :=
+  match a, b with
+  | [], [] => true
+  | x :: a', y :: b' => ExeA.ArgData.pathc_eqb x y && path_eqb a' b'
+  | _, _ => false
+  end.
+
+Definition judge_subscribe (VS : Vld.Ast.schema) (F : Vld.Ast.features) (ES : ExeA.ArgData.schema)
+           (bs opname : bytes) (raw : list (ExeA.ArgData.name * Val.Values.jval)) (W : ExeA.ArgData.outcome)
+           (so : list sexp) (verdict : sexp) : sexp :=
+  match tagged "ok" verdict with
+  | None => verdict
+  | Some _ =>
+      match field1 "obs" so with
+      | Some ob =>
+          match untag ob with
+          | Some (t, args) =>
+              if String.eqb t "skipped" then verdict
+              else if String.eqb t "panic" || String.eqb t "timeout" then v_oracle_fail (String.append "subscribe-" t) [ob]
+              else
+                let m := subscribe_model VS F ES bs opname raw W in
+                let show := match m with
+                            | SubSyntax _ _ => tag "syntax" [] | SubInvalid _ _ => tag "invalid" []
+                            | SubError p => tag "error" [of_list of_pathc p] | SubSource _ => tag "source" []
+                            | SubPanic _ => tag "panic" [] | SubOutOfFuel _ => tag "out-of-fuel" []
+                            end in
+                match m, args with
+                | SubSyntax _ _, [] => if String.eqb t "syntax" then add_classes verdict ["subscribe-syntax-rejected"] else v_mismatch "subscribe-class" [show]
+                | SubInvalid _ _, [] => if String.eqb t "invalid" then add_classes verdict ["subscribe-validation-rejected"] else v_mismatch "subscribe-class" [show]
+                | SubSource _, [] => if String.eqb t "source" then add_classes verdict ["subscribe-source"] else v_mismatch "subscribe-class" [show]
+                | SubError p, [SZ n; SL ps] =>
+                    if String.eqb t "error" && Z.eqb n 1 then
+                      match map_opt ExeA.ArgDecode.dec_pathc ps with
+                      | Some p' => if path_eqb p p' then
+                                     add_classes verdict [match p with [] => "subscribe-refused" | _ => "subscribe-resolver-error" end]
+                                   else v_mismatch "subscribe-error-path" [show]
+                      | None => v_bad "subscribe-path"
+                      end
+                    else v_mismatch "subscribe-class" [show]
+                | SubPanic _, _ | SubOutOfFuel _, _ => v_mismatch "subscribe-model-crashed" [show]
+                | _, _ => v_mismatch "subscribe-class" [show]
+                end
+          | None => v_bad "subscribe-observed"
+          end
+      | None => v_bad "subscribe-fields"
+      end
+  end.
+
 Definition check_composed (l : list sexp) : sexp :=
   match field1 "kind" l, field1 "query" l, field1 "op" l, field1 "features" l, field1 "vschema" l,
         field1 "eschema" l, field1 "rawvars" l, field1 "world" l, field1 "observed" l, field "outcome" l with
@@ -185,9 +236,13 @@ Definition check_composed (l : list sexp) : sexp :=
                 else if negb (schemas_agree VS ES) then v_bad "schema-encodings-disagree"
                 else
                   let v := judge_composed kind VS F ES bs op raw W obs in
-                  match field "cost" l with
-                  | Some co => judge_cost VS F ES bs op raw co v
-                  | None => v
+                  let v1 := match field "cost" l with
+                            | Some co => judge_cost VS F ES bs op raw co v
+                            | None => v
+                            end in
+                  match field "subscribe" l with
+                  | Some so => judge_subscribe VS F ES bs op raw W so v1
+                  | None => v1
                   end
             | None, _, _, _, _, _ => v_bad "features"
             | _, None, _, _, _, _ => v_bad "vschema"
